@@ -23,6 +23,10 @@ type Op struct {
 	N      int64
 	MetaK  string
 	MetaV  string
+	// MetaSteps: further metadata settings applied in order after MetaK: {"add",k,v} | {"set",k,v} | {"del",k,""}
+	// (keys from ExtraMetaKeys); HDelMeta: the handler deletes that key from its input metadata when it is done
+	MetaSteps [][3]string
+	HDelMeta  string
 	Codec  byte
 	Pipe   []byte
 	Conn   int  // index of the session pair
@@ -39,6 +43,9 @@ type Op struct {
 	HStatus     [3]string // code,msg,cause as strings; empty code = OK
 	HCode       int32
 	HPanic      bool
+	// HPanicKind: what a panicking handler panics with - 0 a string, 1 an error, 2.. a *Status (as ThrowStatus and
+	// CheckStatus do) with code OK, a small code, 404 or a large code; the text is its cause
+	HPanicKind int
 	HNested     bool // call back to the caller before returning
 	// results
 	Issued    bool
@@ -126,12 +133,65 @@ func enter(c inCtx, kind, tag, arg string) (*Env, *Op) {
 	return e, op
 }
 
+// ExpectedExtraMeta replays op.MetaSteps: the extra metadata the receiver must see, in order.
+func ExpectedExtraMeta(op *Op) [][2]string {
+	var kv [][2]string
+	for _, ms := range op.MetaSteps {
+		switch ms[0] {
+		case "add":
+			kv = append(kv, [2]string{ms[1], ms[2]})
+		case "set":
+			found := false
+			for i := range kv {
+				if kv[i][0] == ms[1] {
+					kv[i][1], found = ms[2], true
+					break
+				}
+			}
+			if !found {
+				kv = append(kv, [2]string{ms[1], ms[2]})
+			}
+		case "del":
+			var keep [][2]string
+			for _, x := range kv {
+				if x[0] != ms[1] {
+					keep = append(keep, x)
+				}
+			}
+			kv = keep
+		}
+	}
+	return kv
+}
+
+// dirtyMeta lets a handler strip an entry from the metadata of the message it was given (as a plugin that
+// consumes a marker does) once it has read what it needs.
+func dirtyMeta(c interface{}, op *Op) {
+	if in, ok := c.(interface{ Input() erpc.Message }); ok && op != nil && op.HDelMeta != "" {
+		in.Input().Meta().Del(op.HDelMeta)
+	}
+}
+
 func leave(e *Env, c inCtx, kind string) {
 	if e == nil {
 		return
 	}
 	simrt.YieldQuiet()
 	e.Obs.RecordHandler(HandlerEvent{Peer: e.Obs.PeerName(c.Peer()), Sess: SessKey(c.Session()), Seq: c.Seq(), Kind: kind, Method: c.ServiceMethod(), Exit: true})
+}
+
+// doPanic aborts a handler the way the script says.
+func (op *Op) doPanic() {
+	text := "scripted handler panic " + op.Tag
+	switch op.HPanicKind {
+	case 0:
+		panic(text)
+	case 1:
+		panic(fmt.Errorf("%s", text))
+	default:
+		code := []int32{erpc.CodeOK, 7, erpc.CodeNotFound, 100001}[(op.HPanicKind-2)%4]
+		panic(erpc.NewStatus(code, "thrown", text))
+	}
 }
 
 func (op *Op) handlerStatus() *erpc.Status {
@@ -169,7 +229,7 @@ func echoImpl(s erpc.CallCtx, arg *Payload) (*Payload, *erpc.Status) {
 		return &Payload{Tag: arg.Tag}, nil
 	}
 	if op.HPanic {
-		panic("scripted handler panic " + op.Tag)
+		op.doPanic()
 	}
 	if st := op.handlerStatus(); st != nil {
 		return nil, st
@@ -177,7 +237,9 @@ func echoImpl(s erpc.CallCtx, arg *Payload) (*Payload, *erpc.Status) {
 	s.SetMeta("Rtag", arg.Tag)
 	s.SetMeta("Mk-Echo", string(s.PeekMeta(op.MetaK)))
 	s.SetMeta("Veto-Key", string(s.PeekMeta(op.MetaK)))
-	return &Payload{Tag: arg.Tag, Data: Transform(arg.Data) + "|" + string(s.PeekMeta(op.MetaK)), N: arg.N + 1}, okStatus(op)
+	res := &Payload{Tag: arg.Tag, Data: Transform(arg.Data) + "|" + string(s.PeekMeta(op.MetaK)), N: arg.N + 1}
+	dirtyMeta(s, op)
+	return res, okStatus(op)
 }
 
 func splitPlain(s string) (tag, data string) {
@@ -196,7 +258,7 @@ func (s *Std) Plain(arg *string) (string, *erpc.Status) {
 		return tag + ";", nil
 	}
 	if op.HPanic {
-		panic("scripted handler panic " + op.Tag)
+		op.doPanic()
 	}
 	if st := op.handlerStatus(); st != nil {
 		return "", st
@@ -216,7 +278,7 @@ func (s *Std) Bytes(arg *[]byte) ([]byte, *erpc.Status) {
 		return []byte(tag + ";"), nil
 	}
 	if op.HPanic {
-		panic("scripted handler panic " + op.Tag)
+		op.doPanic()
 	}
 	if st := op.handlerStatus(); st != nil {
 		return nil, st
@@ -244,7 +306,8 @@ type StdPushMx struct{ erpc.PushCtx }
 func (s *StdPushMx) NoteMx(arg *Payload) *erpc.Status { return noteImpl(s, arg) }
 
 func noteImpl(s erpc.PushCtx, arg *Payload) *erpc.Status {
-	e, _ := enter(s, "push", arg.Tag, arg.String())
+	e, op := enter(s, "push", arg.Tag, arg.String())
+	dirtyMeta(s, op)
 	leave(e, s, "push")
 	return nil
 }
@@ -314,6 +377,16 @@ func (op *Op) settings() []erpc.MessageSetting {
 	}
 	if op.MetaK != "" {
 		st = append(st, erpc.WithAddMeta(op.MetaK, op.MetaV))
+	}
+	for _, ms := range op.MetaSteps {
+		switch ms[0] {
+		case "add":
+			st = append(st, erpc.WithAddMeta(ms[1], ms[2]))
+		case "set":
+			st = append(st, erpc.WithSetMeta(ms[1], ms[2]))
+		case "del":
+			st = append(st, erpc.WithDelMeta(ms[1]))
+		}
 	}
 	if len(op.Pipe) > 0 {
 		st = append(st, erpc.WithXferPipe(op.Pipe...))
